@@ -75,7 +75,7 @@ pub fn plausible(ev: &Ev, effect_then_fail: bool) -> Vec<Action> {
         Kind::Chmod | Kind::Fchmod | Kind::Utimens => f(&[EIO, EPERM, EROFS, ESTALE]),
         Kind::Mkdir => f(&[EIO, ENOSPC, EACCES, EEXIST]),
         Kind::Readdir => f(&[EIO, ESTALE]),
-        Kind::Close => vec![Action::FailAfter(EIO), Action::FailAfter(EDQUOT)],
+        Kind::Close => vec![Action::FailAfter(EIO), Action::FailAfter(EDQUOT), Action::LoseTail(EDQUOT)],
         Kind::Read => f(&[EIO, ESTALE]),
         Kind::Lseek => vec![],
         _ => vec![],
@@ -87,6 +87,7 @@ pub fn action_json(a: &Action) -> Value {
         Action::Fail(e) => json!({"fail": e}),
         Action::FailAfter(e) => json!({"fail_after": e}),
         Action::Short => json!("short"),
+        Action::LoseTail(e) => json!({"lose_tail": e}),
         _ => json!("none"),
     }
 }
@@ -95,6 +96,8 @@ pub fn action_from(v: &Value) -> Action {
         Action::Fail(e as i32)
     } else if let Some(e) = v.get("fail_after").and_then(|x| x.as_i64()) {
         Action::FailAfter(e as i32)
+    } else if let Some(e) = v.get("lose_tail").and_then(|x| x.as_i64()) {
+        Action::LoseTail(e as i32)
     } else {
         Action::Short
     }
@@ -165,6 +168,16 @@ pub fn fault_run(scn: &Scn, faults: &[(u64, Action)], planned: &[Ev], rep: &mut 
                 bad.push(("probe-error-masked".into(), format!("a failed existence probe (stat of the key's alternate location) was treated as absence: {}", m)));
             } else {
                 bad.push((s, m));
+            }
+        }
+    }
+    // (b") success means the whole effect, durability included: with auto-sync (the scenarios' default) whatever
+    // became visible under a key was flushed first, whichever call failed on the way
+    if matches!(res, Res::Unit | Res::Hit(_)) && w.op.is_write() && w.cfg.auto_sync {
+        let root = w.dirs.write.to_string_lossy().into_owned();
+        for (s, m) in crate::props::c03::order_violations_opt(&trace, &root, true, false) {
+            if s == "publish-before-flush" {
+                bad.push(("success-without-flush".into(), format!("the operation reported success, but {}", m)));
             }
         }
     }
@@ -248,7 +261,7 @@ pub fn run(tier: Tier, shard: Shard, rep: &mut Report) {
         every failure plausible for that kind of call (errno table in DESIGN.md §3.3; short writes; close reporting an error after \
         releasing the descriptor; thorough adds effect-then-fail for rename/link/unlink and pairs of faults for short operations), \
         the failure is injected once and the operation continues. Oracle: no panic except the documented failed-flush one; Err, or Ok \
-        with the effect verified on disk; tree valid (C02's predicate); no new temp file survives except the one whose own unlink \
+        with the effect verified on disk and, for writes, every inode that became visible flushed beforehand; tree valid (C02's predicate); no new temp file survives except the one whose own unlink \
         was failed; no descriptor left open; re-issuing the operation succeeds with the fault-free effect. Every case is distinct."
         .into();
     rep.assumptions = vec![
